@@ -85,6 +85,13 @@ func (o *Own) collectWrites() {
 					if bi, ok := x.Common().Value.(*ssa.Builtin); ok && bi.Name() == "delete" {
 						o.Writes[top] = append(o.Writes[top], Write{fn, in, x.Common().Args[0], nil, "mapdel", ""})
 					}
+					if bi, ok := x.Common().Value.(*ssa.Builtin); ok && bi.Name() == "append" {
+						// append(s[:k], ...) (also through a loop variable) stores into the elements of s beyond k: an
+						// in-place filter / compaction rewrites the slice it was given
+						if base := truncatedView(x.Common().Args[0], map[ssa.Value]bool{}, 0); base != nil {
+							o.Writes[top] = append(o.Writes[top], Write{fn, in, base, nil, "elemset", ""})
+						}
+					}
 					if bi, ok := x.Common().Value.(*ssa.Builtin); ok && bi.Name() == "copy" {
 						o.Writes[top] = append(o.Writes[top], Write{fn, in, x.Common().Args[0], x.Common().Args[1], "elemset", ""})
 					}
@@ -281,3 +288,38 @@ func (o *Own) MutSummary() []string {
 }
 
 var _ = token.ADD
+
+// truncatedView: v is (possibly via loop variables and earlier appends) a shortened view s[:k] of an
+// existing slice s without a capacity limit; returns s. Appending to such a view overwrites s's elements.
+func truncatedView(v ssa.Value, seen map[ssa.Value]bool, depth int) ssa.Value {
+	if v == nil || seen[v] || depth > 6 {
+		return nil
+	}
+	seen[v] = true
+	switch x := v.(type) {
+	case *ssa.Slice:
+		if x.High != nil && x.Max == nil {
+			if _, isArr := x.X.Type().Underlying().(*types.Pointer); isArr {
+				return nil // slice of a local array (literal)
+			}
+			if _, isStr := x.X.Type().Underlying().(*types.Basic); isStr {
+				return nil
+			}
+			return x.X
+		}
+		return truncatedView(x.X, seen, depth+1)
+	case *ssa.Phi:
+		for _, e := range x.Edges {
+			if b := truncatedView(e, seen, depth+1); b != nil {
+				return b
+			}
+		}
+	case *ssa.Call:
+		if bi, ok := x.Common().Value.(*ssa.Builtin); ok && bi.Name() == "append" {
+			return truncatedView(x.Common().Args[0], seen, depth+1)
+		}
+	case *ssa.ChangeType:
+		return truncatedView(x.X, seen, depth+1)
+	}
+	return nil
+}
